@@ -10,7 +10,7 @@ import time
 import vlib
 from vlib import ToolError, log
 
-NSEEDS = 26
+NSEEDS = 27
 
 
 def generate(tag, maxsteps, seeds, simulate=None):
